@@ -129,7 +129,21 @@ func c09ExpiryBoundary(r *core.Run) {
 	if cmp.X == ttl {
 		op = flip(op)
 	}
-	tbl := [3]bool{core.CmpHolds(op, -1), core.CmpHolds(op, 0), core.CmpHolds(op, 1)}
+	// the function's result for each ordering of now and ttl: the comparison may be
+	// returned as it is or select between constant results (early return form)
+	var tbl [3]bool
+	decided := true
+	for i, ord := range []int{-1, 0, 1} {
+		res, ok := core.BoolResult(f, cmp.Block(), 0, map[ssa.Value]bool{cmp: core.CmpHolds(op, ord)})
+		if !ok {
+			decided = false
+		}
+		tbl[i] = res
+	}
+	if !decided {
+		r.Unknown("expiry-boundary", fnIsKeyExpired+" now vs ttl", site(r, instrPos(cmp)), "the result is not a function of the comparison between now and ttl alone")
+		return
+	}
 	r.Check(tbl == [3]bool{false, true, true}, "expiry-boundary", fnIsKeyExpired+" now vs ttl", site(r, instrPos(cmp)),
 		"expired iff now >= ttl ({visible, expired, expired} over now{<,==,>}ttl)",
 		fmt.Sprintf("expired over now{<,==,>}ttl = %v; required {false,true,true}: a key is observable at or after its deadline, or hidden before it", tbl))
